@@ -1003,7 +1003,14 @@ impl<'a> Gen<'a> {
             Expr::invoke(e, "collect", vec![])
         } else {
             let f = self.lambda(2);
-            let init = self.lit_num();
+            // the seed is a value like any other: nil, false, an empty string or vector are seeds too
+            // (the function is called once per element, the first time with the seed)
+            let init = match self.rd.below(10) {
+                0 | 1 => Expr::Nil,
+                2 => Expr::False,
+                3 => Expr::str(""),
+                _ => self.lit_num(),
+            };
             Expr::invoke(e, "reduce", vec![f, init])
         }
     }
